@@ -38,8 +38,8 @@ import (
 
 // Case is the replayable artefact.
 type Case struct {
-	Space string `json:"space"` // agree | heads | subst | prefix
-	Bytes string `json:"bytes"` // hex of the exact decoder input
+	Space string `json:"space"`           // agree | heads | subst | prefix
+	Bytes string `json:"bytes,omitempty"` // hex of the exact decoder input
 	Field string `json:"field,omitempty"`
 	Goom  string `json:"goom,omitempty"`
 	Ref   string `json:"ref,omitempty"`
@@ -161,35 +161,41 @@ func (k *checker) lensFrom(space string, buf []byte, min int) {
 }
 
 // agree compares goom with the reference result ri on the window src.
-func (k *checker) agree(src []byte, ri *ref.Inst, where string) {
+func (k *checker) agree(src []byte, ri *ref.Inst, im *image, f *fn, pos int) {
+	k.agreeAt(src, ri, func() string { return fmt.Sprintf("%s:%s+%#x", imageName(im.path), f.name, pos-f.lo) })
+}
+
+func (k *checker) agreeAt(src []byte, ri *ref.Inst, where func() string) {
 	k.agreeCmp++
 	inst, err, pmsg, panicked := decode(src)
 	rop := ri.Op.String()
 	if panicked {
 		cls := digits.ReplaceAllString(vk.Short(pmsg, 70), "#")
-		k.report("agree", src, fmt.Sprintf("x86 agree panic=%q op=%s", cls, rop), "panic", pmsg, rop, "goom Decode panicked: "+pmsg, where)
+		k.report("agree", src, fmt.Sprintf("x86 agree panic=%q op=%s", cls, rop), "panic", pmsg, rop, "goom Decode panicked: "+pmsg, where())
 		return
 	}
-	refs := fmt.Sprintf("%s Len=%d PCRel=%d PCRelOff=%d", rop, ri.Len, ri.PCRel, ri.PCRelOff)
+	refs := func() string {
+		return fmt.Sprintf("%s Len=%d PCRel=%d PCRelOff=%d", rop, ri.Len, ri.PCRel, ri.PCRelOff)
+	}
 	if err != nil {
-		k.report("agree", src, fmt.Sprintf("x86 agree field=decodable op=%s goom=error ref=ok", rop), "decodable", "error "+err.Error(), refs,
-			fmt.Sprintf("goom fails with %q on an instruction the reference decodes as %s", err.Error(), refs), where)
+		k.report("agree", src, fmt.Sprintf("x86 agree field=decodable op=%s goom=error ref=ok", rop), "decodable", "error "+err.Error(), refs(),
+			fmt.Sprintf("goom fails with %q on an instruction the reference decodes as %s", err.Error(), refs()), where())
 		return
 	}
 	if name, desc := invariant(&inst, err, len(src)); name != "" {
-		k.report("agree", src, fmt.Sprintf("x86 total inv=%s op=%s", name, inst.Op.String()), name, "", refs, desc, where)
+		k.report("agree", src, fmt.Sprintf("x86 total inv=%s op=%s", name, inst.Op.String()), name, "", refs(), desc, where())
 	}
 	gop := inst.Op.String()
-	cmp := func(field string, gv, rv interface{}) {
-		if gv != rv {
+	cmp := func(field string, differ bool, gv, rv interface{}) {
+		if differ {
 			k.report("agree", src, fmt.Sprintf("x86 agree field=%s op=%s goom=%v ref=%v", field, rop, gv, rv), field, fmt.Sprint(gv), fmt.Sprint(rv),
-				fmt.Sprintf("%s differs: goom %s Len=%d PCRel=%d PCRelOff=%d, reference %s", field, gop, inst.Len, inst.PCRel, inst.PCRelOff, refs), where)
+				fmt.Sprintf("%s differs: goom %s Len=%d PCRel=%d PCRelOff=%d, reference %s", field, gop, inst.Len, inst.PCRel, inst.PCRelOff, refs()), where())
 		}
 	}
-	cmp("Len", inst.Len, ri.Len)
-	cmp("Op", gop, rop)
-	cmp("PCRel", inst.PCRel, ri.PCRel)
-	cmp("PCRelOff", inst.PCRelOff, ri.PCRelOff)
+	cmp("Len", inst.Len != ri.Len, inst.Len, ri.Len)
+	cmp("Op", gop != rop, gop, rop)
+	cmp("PCRel", inst.PCRel != ri.PCRel, inst.PCRel, ri.PCRel)
+	cmp("PCRelOff", inst.PCRelOff != ri.PCRelOff, inst.PCRelOff, ri.PCRelOff)
 }
 
 // ---- corpus ----
@@ -245,6 +251,13 @@ func loadImage(path string) *image {
 		vk.Fatalf("corpus %s: only %d functions found", path, len(im.funcs))
 	}
 	return im
+}
+
+func imageName(path string) string {
+	if path == "/proc/self/exe" {
+		return "harness"
+	}
+	return filepath.Base(path)
 }
 
 func goroot() string {
@@ -328,7 +341,7 @@ func Run(c *vk.Ctx) {
 			if my {
 				k.funcs++
 				if fi%256 == 0 {
-					c.Sample(Case{Space: "agree", Where: filepath.Base(im.path) + ":" + f.name})
+					c.Sample(Case{Space: "agree", Where: imageName(im.path) + ":" + f.name})
 				}
 			}
 			nfuncs++
@@ -354,17 +367,13 @@ func Run(c *vk.Ctx) {
 					if ri.PCRel > 0 {
 						k.pcrelInstr++
 					}
-					k.agree(src, &ri, fmt.Sprintf("%s:%s+%#x", filepath.Base(im.path), f.name, pos-f.lo))
+					k.agree(src, &ri, im, f, pos)
 				}
 				pos += ri.Len
 			}
 		}
 		ninstr += imInstr
-		name := filepath.Base(im.path)
-		if path == "/proc/self/exe" {
-			name = "harness"
-		}
-		corpusDesc = append(corpusDesc, fmt.Sprintf("%s:%d funcs,%d instrs", name, len(im.funcs), imInstr))
+		corpusDesc = append(corpusDesc, fmt.Sprintf("%s:%d funcs,%d instrs", imageName(im.path), len(im.funcs), imInstr))
 	}
 	encs := make([]enc, 0, len(distinct))
 	for e := range distinct {
@@ -547,7 +556,7 @@ func replay(c *vk.Ctx, k *checker) {
 		if rerr != nil {
 			vk.Fatalf("the reference cannot decode the recorded corpus instruction")
 		}
-		k.agree(src, &ri, cs.Where)
+		k.agreeAt(src, &ri, func() string { return cs.Where })
 	} else {
 		k.total(cs.Space, src)
 	}
